@@ -6,6 +6,7 @@ package comet
 
 import (
 	"fmt"
+	"math"
 	"strings"
 )
 
@@ -38,7 +39,7 @@ func newFlatSys(c *vCtx, metric DistanceKind, dim int, nids int) *vFlatSys {
 	}
 	restr := [][]uint32{nil, {1}, {2, 3}, {9}, {1, 9}, {2, 2, 1}} // the last one names an id twice (a restriction is a set)
 	for _, q := range vQueryAlphabet(dim) {
-		for _, k := range []int{-1, 0, 1, 2, nids, nids + 1} {
+		for _, k := range []int{-1, 0, 1, 2, nids, nids + 1, math.MaxInt64} {
 			for _, t := range thr {
 				for _, r := range restr {
 					s.qs = append(s.qs, vVecQuery{Q: q, K: k, Thr: t, IDs: r})
@@ -233,7 +234,8 @@ func init() {
 			if tier == "thorough" {
 				maxN = 300
 			}
-			for _, cfg := range []vVecCfg{{Kind: "flat", Metric: Euclidean, Dim: 2}, {Kind: "flat", Metric: Cosine, Dim: 3}, {Kind: "flat", Metric: L2Squared, Dim: 5}} {
+			for _, cfg := range []vVecCfg{{Kind: "flat", Metric: Euclidean, Dim: 2}, {Kind: "flat", Metric: Cosine, Dim: 3}, {Kind: "flat", Metric: L2Squared, Dim: 5},
+				{Kind: "flat", Metric: L2Squared, Dim: 9}, {Kind: "flat", Metric: Euclidean, Dim: 16}, {Kind: "flat", Metric: Cosine, Dim: 33}} {
 				cfg := cfg
 				sh = append(sh, vShard{Name: "sweep/" + strings.ReplaceAll(cfg.String(), " ", ","), Run: func(c *vCtx) { vKindSweep(c, cfg, maxN, nil) }})
 				sh = append(sh, vShard{Name: "large/" + strings.ReplaceAll(cfg.String(), " ", ","), Run: func(c *vCtx) { vKindLarge(c, cfg, vLargeSizes(tier), nil) }})
